@@ -8,6 +8,8 @@ import (
 	"path/filepath"
 	"regexp"
 	"strings"
+	"sync"
+	"time"
 )
 
 // runOverlayTest injects an in-package test file into pkgDir (through
@@ -188,6 +190,19 @@ func TestVerifReplayC01(t *testing.T) {
 // of hostile strings (directed search; never changes the verdict).
 func replayC04(c *checkCtx, r *OblResult) *Replay {
 	rp := genericReplay("C04", r)
+	if r.Kind == "bounded" {
+		parts := strings.SplitN(r.Known, "|", 2)
+		if len(parts) == 2 {
+			rp.TestFile, rp.TestPkgDir, rp.TestName = parts[0], parts[1], "TestVerifReplayC04"
+		}
+		rp.Found = true
+		rp.Input = r.Detail
+		rp.Observed = lastLines(r.Model, 15)
+		rp.SolverOut = "bounded stand-in (go test over a corpus), not a solver verdict"
+		rp.Explanation = "A public entry point panics or hangs on an input of the corpus."
+		r.Known = ""
+		return rp
+	}
 	pkg := "semver"
 	if i := strings.Index(r.Func, "."); i > 0 {
 		pkg = r.Func[:i]
@@ -327,6 +342,20 @@ import (
 func TestVerifReplayC04(t *testing.T) {
 	corpus := verifCorpus(@SEED@)
 	extra := []string{"a", "a[b]", "a[b,c]>=1.0", "a (>=1.0)", "a>=1.0; python_version<'3'", "a;", "a[", "a]", "a[]", "a (", "a )", "A_b.c", "-", "a--b", "a;;", "a ; extra == 'x'", "a@http://x", "a @ file:///x ; os_name=='nt'"}
+	// grammar product: name x extras x space x specifier x space x marker
+	for _, name := range []string{"a", "A.b_c-d", ""} {
+		for _, ex := range []string{"", "[]", "[x]", "[x, y]", "[", "[x"} {
+			for _, sp1 := range []string{"", " ", "\t"} {
+				for _, spec := range []string{"", ">=1.0", "(>=1.0)", "()", "(", ")", "==1.*", ">=1,!=2", "~=1"} {
+					for _, sp2 := range []string{"", " "} {
+						for _, mk := range []string{"", ";", "; extra == 'x'", ";python_version<'3'", "; "} {
+							extra = append(extra, name+ex+sp1+spec+sp2+mk)
+						}
+					}
+				}
+			}
+		}
+	}
 	try := func(what string, f func()) {
 		defer func() {
 			if r := recover(); r != nil {
@@ -343,3 +372,232 @@ func TestVerifReplayC04(t *testing.T) {
 	}
 }
 `
+
+
+// replayC05 attaches a concrete observation to a failed frame obligation:
+// resolve over the repository's own test universes with a plain LocalClient
+// and compare what the client reports before and after.
+func replayC05(c *checkCtx, r *OblResult) *Replay {
+	rp := genericReplay("C05", r)
+	var dir, src string
+	switch {
+	case strings.HasPrefix(r.Func, "maven.") || strings.HasPrefix(r.Func, "resolve.SortVersions"):
+		dir, src = "util/resolve/maven", c05Test("maven", "Maven")
+	case strings.HasPrefix(r.Func, "pypi."):
+		dir, src = "util/resolve/pypi", c05Test("pypi", "PyPI")
+	case strings.HasPrefix(r.Func, "npm.") || strings.HasPrefix(r.Func, "resolve."):
+		dir, src = "util/resolve/npm", c05Test("npm", "NPM")
+	default:
+		return rp
+	}
+	out, ok := runOverlayTest(repoRoot()+"/"+dir, "TestVerifReplayC05", src, 240)
+	testFile := filepath.Join(verifRoot, "replays", "C05_"+sanitize(r.Name)+"_test.go")
+	os.MkdirAll(filepath.Dir(testFile), 0o755)
+	os.WriteFile(testFile, []byte(src), 0o644)
+	rp.TestFile, rp.TestPkgDir, rp.TestName = testFile, dir, "TestVerifReplayC05"
+	rp.Command = "govc replay <this file>"
+	if m := reFound.FindStringSubmatch(out); m != nil && !ok {
+		rp.Found = true
+		rp.Input = m[1]
+		rp.Observed = lastLines(out, 12)
+		rp.Explanation = "The frame obligation fails and resolving over the repository's own test universes changes what the client reports afterwards."
+	} else {
+		rp.Notes = append(rp.Notes, "resolving the repository's test universes did not change the client: "+lastLines(out, 3))
+	}
+	return rp
+}
+
+func c05Test(pkg, sys string) string {
+	return strings.NewReplacer("@PKG@", pkg, "@SYS@", sys).Replace(c05TestTmpl)
+}
+
+const c05TestTmpl = `package @PKG@
+
+import (
+	"context"
+	"fmt"
+	"os"
+	"path/filepath"
+	"strings"
+	"testing"
+
+	"deps.dev/util/resolve"
+	"deps.dev/util/resolve/schema"
+)
+
+func verifSnapshot(lc *resolve.LocalClient) string {
+	var b strings.Builder
+	var pks []resolve.PackageKey
+	for pk := range lc.PackageVersions {
+		pks = append(pks, pk)
+	}
+	// deterministic order
+	for i := range pks {
+		for j := i + 1; j < len(pks); j++ {
+			if pks[j].Compare(pks[i]) < 0 {
+				pks[i], pks[j] = pks[j], pks[i]
+			}
+		}
+	}
+	ctx := context.Background()
+	for _, pk := range pks {
+		vs, _ := lc.Versions(ctx, pk)
+		fmt.Fprintf(&b, "%v:", pk)
+		for _, v := range vs {
+			fmt.Fprintf(&b, " %s", v.Version)
+			rs, _ := lc.Requirements(ctx, v.VersionKey)
+			fmt.Fprintf(&b, "%v", rs)
+		}
+		b.WriteString("\n")
+	}
+	return b.String()
+}
+
+func TestVerifReplayC05(t *testing.T) {
+	files, _ := filepath.Glob("testdata/*")
+	more, _ := filepath.Glob("testdata/*/*")
+	files = append(files, more...)
+	n := 0
+	for _, f := range files {
+		data, err := os.ReadFile(f)
+		if err != nil || !strings.Contains(string(data), "\n") {
+			continue
+		}
+		// universe blocks of the repository's own test data: "-- Universe <name>" ... "-- END"
+		lines := strings.Split(string(data), "\n")
+		for li := 0; li < len(lines); li++ {
+			if !strings.HasPrefix(strings.ToLower(strings.TrimSpace(lines[li])), "-- universe ") {
+				continue
+			}
+			uname := strings.TrimSpace(lines[li])
+			var block []string
+			for li++; li < len(lines) && !strings.HasPrefix(strings.ToLower(strings.TrimSpace(lines[li])), "-- end"); li++ {
+				block = append(block, lines[li])
+			}
+			var lc *resolve.LocalClient
+			func() {
+				defer func() { recover() }()
+				s, err := schema.New(strings.Join(block, "\n"), resolve.@SYS@)
+				if err == nil {
+					lc = s.NewClient()
+				}
+			}()
+			if lc == nil {
+				continue
+			}
+			before := verifSnapshot(lc)
+			ctx := context.Background()
+			for _, vs := range lc.PackageVersions {
+				for _, v := range vs {
+					if v.VersionType != resolve.Concrete {
+						continue
+					}
+					func() {
+						defer func() { recover() }()
+						NewResolver(lc).Resolve(ctx, v.VersionKey)
+					}()
+					n++
+				}
+			}
+			if after := verifSnapshot(lc); after != before {
+				t.Fatalf("COUNTEREXAMPLE: resolving every version of %s in %s changes what the client reports afterwards", uname, f)
+			}
+		}
+	}
+	if n == 0 {
+		t.Log("no universe could be loaded")
+	}
+}
+`
+
+
+const c04MarkersTest = `package pypi
+
+import (
+	"fmt"
+	"testing"
+)
+` + c04Corpus + `
+func TestVerifReplayC04(t *testing.T) {
+	corpus := verifCorpus(@SEED@)
+	vars := []string{"python_version", "python_full_version", "os_name", "sys_platform", "platform_release", "platform_system", "platform_machine", "platform_python_implementation", "implementation_name", "implementation_version", "extra", "'3.6'", "'abc'", "\"5.0\"", "'1'", "''", "'win32'", "'2.0.post1'", "'x y'"}
+	ops := []string{"==", "!=", "<", "<=", ">", ">=", "~=", "===", "in", "not in", "", "="}
+	var ms []string
+	for _, a := range vars {
+		for _, op := range ops {
+			for _, b := range vars {
+				ms = append(ms, a+" "+op+" "+b, a+op+b)
+			}
+		}
+	}
+	base := append([]string{}, ms[:40]...)
+	for _, m := range base {
+		ms = append(ms, "("+m+")", m+" and "+m, m+" or ("+m+" and "+m+")", "(("+m, m+"))", m+" and", "and "+m, "not "+m)
+	}
+	ms = append(ms, corpus[:1500]...)
+	try := func(what string, f func()) {
+		defer func() {
+			if r := recover(); r != nil {
+				t.Fatalf("COUNTEREXAMPLE: %s panics: %v", what, r)
+			}
+		}()
+		f()
+	}
+	for _, m := range ms {
+		m := m
+		try(fmt.Sprintf("parseMarker(%q) / Eval", m), func() {
+			mk, err := parseMarker(m)
+			if err != nil || mk == nil {
+				return
+			}
+			_ = mk.Eval(nil)
+			_ = mk.Eval(map[string]bool{"x": true, "1": true})
+			_ = mk.String()
+		})
+	}
+}
+`
+
+// boundedC04 runs the directed searches as bounded stand-ins on every run:
+// the public entry points over a fixed corpus (labelled bounded, never counted as proved).
+func boundedC04(c *checkCtx) []OblResult {
+	type bt struct{ name, dir, src string }
+	seed := fmt.Sprint(c.seed)
+	tests := []bt{
+		{"bounded:C04.semver entry points over the hostile corpus (9 systems; Parse, ParseConstraint, ParseSetConstraint, Compare, Difference, Match)", "util/semver", c04SemverTest},
+		{"bounded:C04.pypi ParseDependency/CanonPackageName/CanonVersion over the hostile corpus and a grammar product", "util/pypi", c04PypiTest},
+		{"bounded:C04.pypi markers parseMarker+Eval over operator/variable products and the hostile corpus", "util/resolve/pypi", c04MarkersTest},
+	}
+	out := make([]OblResult, len(tests))
+	var wg sync.WaitGroup
+	for i, t := range tests {
+		wg.Add(1)
+		go func(i int, t bt) {
+			defer wg.Done()
+			src := strings.ReplaceAll(t.src, "@SEED@", seed)
+			start := time.Now()
+			o, ok := runOverlayTest(repoRoot()+"/"+t.dir, "TestVerifReplayC04", src, 120)
+			r := OblResult{Name: t.name, Kind: "bounded", Func: "", Site: "no panic and no hang on the corpus (120 s limit)", Solver: "go test (bounded stand-in)", Secs: time.Since(start).Seconds(), Order: i}
+			switch {
+			case ok:
+				r.Status = "proved"
+			default:
+				r.Status = "failed"
+				if m := reFound.FindStringSubmatch(o); m != nil {
+					r.Detail = m[1]
+				} else {
+					r.Detail = lastLines(o, 4)
+				}
+				r.Model = o
+				testFile := filepath.Join(verifRoot, "replays", "C04_bounded_"+fmt.Sprint(i)+"_test.go")
+				os.MkdirAll(filepath.Dir(testFile), 0o755)
+				os.WriteFile(testFile, []byte(src), 0o644)
+				r.Query = ""
+				r.Known = testFile + "|" + t.dir
+			}
+			out[i] = r
+		}(i, t)
+	}
+	wg.Wait()
+	return out
+}
